@@ -150,7 +150,8 @@ pub open spec fn p_lines(ts: Seq<Tok>) -> (Seq<Tree>, Seq<Tok>, nat)
 /// parse_entry: (elements appended to the paragraph, rest, errors)
 pub open spec fn p_entry(ts: Seq<Tok>) -> (Seq<Tree>, Seq<Tok>, nat) {
     let c = p_entry_comments(ts);
-    if c.3 { (c.0, c.1, c.2) }
+    // the comment lines were the end of the paragraph (or of the input): no entry follows
+    if c.3 || c.1.len() == 0 || c.1[0].0 == NEWLINE { (c.0, c.1, c.2) }
     else {
         let k = p_expect(c.1, KEY);
         let co = p_expect(k.1, COLON);
@@ -256,11 +257,11 @@ pub proof fn lemma_p_expect_len(ts: Seq<Tok>, k: SyntaxKind)
     if is_k(ts, k) { lemma_p_skip_ws_len(ts.skip(1)); }
 }
 pub proof fn lemma_p_entry_len(ts: Seq<Tok>)
-    ensures p_entry(ts).1.len() <= ts.len(), ts.len() > 0 ==> p_entry(ts).1.len() < ts.len()
+    ensures p_entry(ts).1.len() <= ts.len(), (ts.len() > 0 && ts[0].0 != NEWLINE) ==> p_entry(ts).1.len() < ts.len()
 {
     lemma_p_entry_comments_len(ts);
     let c = p_entry_comments(ts);
-    if !c.3 {
+    if !(c.3 || c.1.len() == 0 || c.1[0].0 == NEWLINE) {
         lemma_p_expect_len(c.1, KEY);
         let k = p_expect(c.1, KEY);
         lemma_p_expect_len(k.1, COLON);
